@@ -197,15 +197,22 @@ impl OW {
 
     pub fn poll(&mut self, sink: &mut Sink, i: usize) { self.poll_with(sink, i, false) }
     /// `task`: poll with the waker shared by all subscribers polled this way
-    pub fn poll_with(&mut self, sink: &mut Sink, i: usize, task: bool) {
+    pub fn poll_with(&mut self, sink: &mut Sink, i: usize, task: bool) { self.poll_via(sink, i, task, 0) }
+    /// `via`: 0 = `Stream::poll_next`, 1 = the `next()` future polled once, 2 = the `next_ref()` future polled once
+    /// (a future that is not ready is dropped; its waker registration stays, as for a stream poll)
+    pub fn poll_via(&mut self, sink: &mut Sink, i: usize, task: bool, via: u8) {
         let (cur, open) = (self.cur, self.open);
         let tw = self.task_waker.clone();
         let tflag = self.task_flag.0.load(Ordering::SeqCst);
         let s = self.subs[i].as_mut().unwrap();
         let mut cx = Context::from_waker(if task { &tw } else { &s.waker });
-        let r = match &mut s.k {
-            SubK::S(sb) => Pin::new(sb).poll_next(&mut cx),
-            SubK::A(sb) => Pin::new(sb).poll_next(&mut cx),
+        let r = match (&mut s.k, via) {
+            (SubK::S(sb), 0) => Pin::new(sb).poll_next(&mut cx),
+            (SubK::A(sb), 0) => Pin::new(sb).poll_next(&mut cx),
+            (SubK::S(sb), 1) => { let mut f = std::pin::pin!(sb.next()); f.as_mut().poll(&mut cx) }
+            (SubK::A(sb), 1) => { let mut f = std::pin::pin!(sb.next()); f.as_mut().poll(&mut cx) }
+            (SubK::S(sb), _) => { let mut f = std::pin::pin!(sb.next_ref()); f.as_mut().poll(&mut cx).map(|o| o.map(|g| g.clone())) }
+            (SubK::A(sb), _) => { let mut f = std::pin::pin!(sb.next_ref()); f.as_mut().poll(&mut cx).map(|o| o.map(|g| g.clone())) }
         };
         let shown = match &r { Poll::Ready(Some(t)) => format!("Ready({})", t.0), Poll::Ready(None) => "End".into(), Poll::Pending => "Pending".into() };
         let expect = if !open { "End".to_string() } else if s.fresh { format!("Ready({cur})") } else { "Pending".into() };
@@ -223,8 +230,8 @@ impl OW {
         if was_parked && shown != "Pending" {
             sink.oracle_fail(&format!("{p}C02"), &format!("subscriber {i} was Pending, was not woken, and a further poll answered {shown}"));
         }
-        sink.stat(if task { "pollt" } else { "poll" });
-        sink.line(&format!("{} {i}", if task { "opollt" } else { "opoll" }), &shown);
+        sink.stat(if task { "pollt" } else if via == 1 { "nextfut" } else if via == 2 { "nextreffut" } else { "poll" });
+        sink.line(&format!("{} {i}", if task { "opollt" } else if via == 1 { "onextf" } else if via == 2 { "onextrf" } else { "opoll" }), &shown);
     }
 
     pub fn next_now(&mut self, sink: &mut Sink, i: usize) {
@@ -357,7 +364,7 @@ impl OW {
 }
 
 #[derive(Clone, Debug)]
-enum A { W(WOp, bool), Sub(bool), Poll(usize), PollT(usize), Next(usize), Get(usize), Reset(usize), SClone(usize, bool), SDrop(usize),
+enum A { W(WOp, bool), Sub(bool), Poll(usize), PollT(usize), PollF(usize, u8), Next(usize), Get(usize), Reset(usize), SClone(usize, bool), SDrop(usize),
          HClone, HDrop(usize), Down, Up(usize), DropW(usize), CloneW(usize), Into, Counts, HGet }
 
 fn apply(w: &mut OW, sink: &mut Sink, a: &A) -> bool {
@@ -370,6 +377,7 @@ fn apply(w: &mut OW, sink: &mut Sink, a: &A) -> bool {
         A::Sub(r) => { let Some(h) = h0 else { return false }; w.subscribe(sink, h, *r); }
         A::Poll(i) => { if !subs.contains(i) { return false; } w.poll(sink, *i) }
         A::PollT(i) => { if !subs.contains(i) { return false; } w.poll_with(sink, *i, true) }
+        A::PollF(i, via) => { if !subs.contains(i) { return false; } w.poll_via(sink, *i, false, *via) }
         A::Next(i) => { if !subs.contains(i) { return false; } w.next_now(sink, *i) }
         A::Get(i) => { if !subs.contains(i) { return false; } w.get(sink, *i) }
         A::Reset(i) => { if !subs.contains(i) { return false; } w.reset(sink, *i) }
@@ -397,7 +405,7 @@ fn alphabet(full: bool) -> Vec<A> {
     ];
     if full {
         v.extend([A::W(WOp::Take, false), A::W(WOp::Upd(1), false), A::W(WOp::Set(1), true), A::W(WOp::UpdIf(0, false), true), A::W(WOp::Sne(9), true),
-                  A::Get(0), A::Poll(2), A::Next(1), A::Reset(1), A::SDrop(1), A::DropW(0), A::CloneW(0), A::Up(1), A::Counts, A::HGet]);
+                  A::Get(0), A::Poll(2), A::PollF(0, 1), A::PollF(0, 2), A::PollF(1, 1), A::Next(1), A::Reset(1), A::SDrop(1), A::DropW(0), A::CloneW(0), A::Up(1), A::Counts, A::HGet]);
     }
     v
 }
@@ -471,7 +479,7 @@ pub fn run(args: &Args, sink: &mut Sink, asyncf: bool) {
                 8 => A::W(WOp::Upd(r.below(3)), r.chance(1, 4)),
                 9..=10 => A::W(WOp::UpdIf(r.below(3), r.chance(1, 2)), r.chance(1, 4)),
                 11 => A::Sub(r.chance(1, 3)),
-                12..=15 => A::Poll(i), 16 => A::PollT(i),
+                12..=14 => A::Poll(i), 15 => A::PollF(i, 1 + r.below(2) as u8), 16 => A::PollT(i),
                 17 => A::Next(i), 18 => A::Get(i), 19 => A::Reset(i), 20 => A::SClone(i, r.chance(1, 2)), 21 => A::SDrop(i),
                 22 => A::HClone, 23 => A::HDrop(r.below(3)), 24 => A::Down, 25 => A::Up(r.below(3)), 26 => if r.chance(1, 2) { A::DropW(r.below(3)) } else { A::CloneW(r.below(2)) },
                 27 => A::Into, 28 => A::Counts, _ => A::HGet,
@@ -486,8 +494,10 @@ pub fn run(args: &Args, sink: &mut Sink, asyncf: bool) {
 // async-lock flavour with guards held across other calls, pending futures, cancellation (C16)
 use eyeball::ObservableReadGuard;
 
-enum FOut { Sne(Option<u64>, u64), Res(String), RG(ObservableReadGuard<'static, T, AsyncLock>), WG(ObservableWriteGuard<'static, T, AsyncLock>), RGV(ObservableReadGuard<'static, T, AsyncLock>) }
-struct PFut { f: Pin<Box<dyn Future<Output = FOut>>>, flag: Arc<Flag>, waker: Waker, woken: bool, val: Option<u64>, sub: Option<usize> }
+enum FOut { Sne(Option<u64>, u64), Val(u64), NewSub(Subscriber<T, AsyncLock>), Res(String), RG(ObservableReadGuard<'static, T, AsyncLock>), WG(ObservableWriteGuard<'static, T, AsyncLock>), RGV(ObservableReadGuard<'static, T, AsyncLock>) }
+struct PFut { f: Pin<Box<dyn Future<Output = FOut>>>, flag: Arc<Flag>, waker: Waker, woken: bool, val: Option<u64>, sub: Option<usize>,
+              /// a `next_ref()` future (its polls are printed with the wakers they cause)
+              nextref: bool }
 enum GuardK { R(#[allow(dead_code)] ObservableReadGuard<'static, T, AsyncLock>), W(ObservableWriteGuard<'static, T, AsyncLock>) }
 
 struct GW {
@@ -539,7 +549,7 @@ impl GW {
         let k = self.nfut;
         self.nfut += 1;
         let (flag, waker) = flag_waker();
-        let mut pf = PFut { f, flag, waker, woken: false, val: notify_to, sub: None };
+        let mut pf = PFut { f, flag, waker, woken: false, val: notify_to, sub: None, nextref: false };
         let mut cx = Context::from_waker(&pf.waker);
         match pf.f.as_mut().poll(&mut cx) {
             Poll::Ready(out) => { self.futs.push(None); self.complete(sink, text, out, notify_to, false); }
@@ -570,7 +580,14 @@ impl GW {
                 let w = self.woke(); let wf = self.wokef();
                 sink.line(text, &format!("{r}{w}{wf}"));
             }
-            FOut::RGV(_) => unreachable!(),
+            FOut::RGV(_) | FOut::Val(_) => unreachable!(),
+            FOut::NewSub(k) => {
+                let (flag, waker) = flag_waker();
+                self.subs.push(Some(Box::new(SubH { k: SubK::A(k), flag, waker, fresh: false, parked: false, tparked: false })));
+                self.driven.push(None); self.unknown.push(false); self.lockwait.push(false); self.under_w.push(false);
+                let w = self.woke(); let wf = self.wokef();
+                sink.line(text, &format!("sub {}{w}{wf}", self.subs.len() - 1));
+            }
             FOut::RG(g) => { self.gsub.push(None); self.guards.push(Some(GuardK::R(g))); let s = if with_woke { format!("{}{}", self.woke(), self.wokef()) } else { String::new() }; sink.line(text, &format!("guard {}{s}", self.guards.len() - 1)); }
             FOut::WG(g) => { self.gsub.push(None); self.guards.push(Some(GuardK::W(g))); let s = if with_woke { format!("{}{}", self.woke(), self.wokef()) } else { String::new() }; sink.line(text, &format!("guard {}{s}", self.guards.len() - 1)); }
         }
@@ -595,10 +612,11 @@ impl GW {
         let waker = pf.waker.clone();
         let mut cx = Context::from_waker(&waker);
         let sub = pf.sub;
+        let nextref = pf.nextref;
         match pf.f.as_mut().poll(&mut cx) {
             Poll::Pending => {
                 pf.woken = false;
-                if let Some(i) = sub {
+                if let (Some(i), true) = (sub, nextref) {
                     if !quiet_but_me { self.lockwait[i] = true; }
                     let w = self.woke(); let wf = self.wokef();
                     sink.line(&format!("afpoll {k}"), &format!("Pending({k}){w}{wf}"));
@@ -639,7 +657,7 @@ impl GW {
         let k = self.nfut;
         self.nfut += 1;
         let (flag, waker) = flag_waker();
-        let mut pf = PFut { f, flag, waker, woken: false, val: None, sub: Some(i) };
+        let mut pf = PFut { f, flag, waker, woken: false, val: None, sub: Some(i), nextref: true };
         let mut cx = Context::from_waker(&pf.waker);
         let text = format!("anext {i}");
         match pf.f.as_mut().poll(&mut cx) {
@@ -653,6 +671,48 @@ impl GW {
                 sink.line(&text, &format!("Pending({k}){w}{wf}"));
             }
         }
+    }
+    /// `sub.next_now()` as a future: created and polled once
+    fn anextnow(&mut self, sink: &mut Sink, i: usize) {
+        if self.subs[i].is_none() || self.busy(i) { return; }
+        let s = self.subs[i].as_mut().unwrap();
+        s.parked = false;
+        let SubK::A(sb) = &mut s.k else { unreachable!() };
+        let p: *mut Subscriber<T, AsyncLock> = sb;
+        let f: Pin<Box<dyn Future<Output = FOut>>> = Box::pin(async move {
+            let s: &'static mut Subscriber<T, AsyncLock> = unsafe { &mut *p };
+            FOut::Val(s.next_now().await.0)
+        });
+        let k = self.nfut;
+        self.nfut += 1;
+        let quiet = self.quiet();
+        let (flag, waker) = flag_waker();
+        let mut pf = PFut { f, flag, waker, woken: false, val: None, sub: Some(i), nextref: false };
+        let mut cx = Context::from_waker(&pf.waker);
+        let text = format!("anextnow {i}");
+        match pf.f.as_mut().poll(&mut cx) {
+            Poll::Ready(out) => { self.futs.push(None); self.finish_next(sink, &text, i, out); }
+            Poll::Pending => {
+                if quiet { sink.oracle_fail("C16", &format!("{text}: the future had to wait although no guard is held and nothing is queued")); }
+                self.futs.push(Some(pf));
+                self.driven[i] = Some(k);
+                sink.line(&text, &format!("Pending({k})"));
+            }
+        }
+    }
+    /// `ob.subscribe()` as a future (it waits for the read lock)
+    fn asub(&mut self, sink: &mut Sink) {
+        let ob = self.ob;
+        self.start(sink, "asub 0", Box::pin(async move { FOut::NewSub(ob.subscribe().await) }), None);
+    }
+    /// the four counters, against the numbers of live handles (each async subscriber counts twice: known finding D8)
+    fn gcounts(&mut self, sink: &mut Sink) {
+        let subs = self.subs.iter().filter(|s| s.is_some()).count();
+        let (oc, sc, st, wk) = (self.ob.observable_count(), self.ob.subscriber_count(), self.ob.strong_count(), self.ob.weak_count());
+        if oc != 1 || sc != 2 * subs || st != 1 + 2 * subs || wk != 0 {
+            sink.oracle_fail("C19,C16", &format!("counts {oc} {sc} {st} {wk} with 1 clone, {subs} live subscriber(s) (2 references each), no weak reference, {} call(s) suspended", self.futs.iter().filter(|f| f.is_some()).count()));
+        }
+        sink.line("hcounts 0", &format!("{oc} {sc} {st} {wk}"));
     }
     fn finish_next(&mut self, sink: &mut Sink, text: &str, i: usize, out: FOut) {
         self.driven[i] = None;
@@ -668,6 +728,14 @@ impl GW {
                 self.guards.push(Some(GuardK::R(g)));
                 let w = self.woke(); let wf = self.wokef();
                 sink.line(text, &format!("guard {} {v}{w}{wf}", self.guards.len() - 1));
+            }
+            FOut::Val(v) => {
+                if v != self.cur { sink.oracle_fail("C16,C01", &format!("next_now() of subscriber {i} returned {v}, the latest value is {}", self.cur)); }
+                let s = self.subs[i].as_mut().unwrap();
+                s.fresh = false; s.parked = false;
+                self.unknown[i] = false;
+                let w = self.woke(); let wf = self.wokef();
+                sink.line(text, &format!("{v}{w}{wf}"));
             }
             FOut::Res(r) => {
                 sink.oracle_fail("C16,C03", &format!("next_ref() of subscriber {i} returned {r} while the observable is alive"));
@@ -760,7 +828,8 @@ impl GW {
             if self.futs.iter().all(|f| f.is_none()) && self.guards.iter().all(|g| g.is_none()) { break; }
             // a next_ref() future with nothing new to deliver stays pending for good: cancel it
             if round >= 3 { for k in 0..self.futs.len() {
-                let stale = match &self.futs[k] { Some(pf) => match pf.sub { Some(i) => !self.subs[i].as_ref().unwrap().fresh || self.unknown[i], None => false }, None => false };
+                // … and one whose subscriber's own lock future sits on a read permit blocks the writers in front of it: cancel it, so that the subscriber can be polled
+                let stale = match &self.futs[k] { Some(pf) => match pf.sub { Some(i) => (pf.nextref && (!self.subs[i].as_ref().unwrap().fresh || self.unknown[i])) || self.lockwait[i], None => false }, None => false };
                 if stale { self.fdrop(sink, k); }
             } }
             for i in 0..self.subs.len() { if self.subs[i].is_some() && self.lockwait[i] { self.poll(sink, i); } }
@@ -801,7 +870,9 @@ pub fn run_guards(args: &Args, sink: &mut Sink) {
                 8 | 9 if !live_futs.is_empty() => w.fpoll(sink, live_futs[r.below(live_futs.len())]),
                 10 if !live_futs.is_empty() => w.fdrop(sink, live_futs[r.below(live_futs.len())]),
                 11 if !live_subs.is_empty() => w.poll(sink, live_subs[r.below(live_subs.len())]),
-                12 if !live_subs.is_empty() => { let i = live_subs[r.below(live_subs.len())]; if r.chance(1, 2) { w.anext(sink, i) } else { w.poll(sink, i) } }
+                12 if !live_subs.is_empty() => { let i = live_subs[r.below(live_subs.len())]; match r.below(4) { 0 | 1 => w.anext(sink, i), 2 => w.anextnow(sink, i), _ => w.poll(sink, i) } }
+                14 if r.chance(1, 2) => w.gcounts(sink),
+                13 if live_subs.len() < 3 && r.chance(1, 2) => w.asub(sink),
                 13 if w.quiet() && live_subs.len() < 3 => w.subscribe(sink, r.chance(1, 3)),
                 13 if live_subs.len() < 3 => w.subscribe(sink, true),
                 14 => w.tryrw(sink, r.chance(1, 2)),
